@@ -45,6 +45,8 @@ func init() {
 				Edits: []Edit{{File: "driver/generic/sendwithcallbacks.go", Old: "\t\tif r == nil {\n\t\t\t// the worker saw the deadline first and closed its channel without a result\n\t\t\treturn nil, fmt.Errorf(\"%w: timeout handling callbacks\", util.ErrTimeoutError)\n\t\t}\n\n", New: ""}}},
 			{ID: "C05-callbacks-return-early", Desc: "SendWithCallbacks returns on timeout without waiting for its reader", Rule: "C05/no-read-after-return",
 				Edits: []Edit{{File: "driver/generic/sendwithcallbacks.go", Old: "\t\t<-c\n\n\t\treturn nil, fmt.Errorf(\"%w: timeout handling callbacks\", util.ErrTimeoutError)", New: "\t\treturn nil, fmt.Errorf(\"%w: timeout handling callbacks\", util.ErrTimeoutError)"}}},
+			{ID: "C05-chain-cut", Desc: "interactive worker wraps the echo-read error with %v", Rule: "C05/deadline-chain",
+				Edits: []Edit{{File: "channel/sendinteractive.go", Old: "\t\t\tnb, err = readUntilF(ctx, []byte(e.ChannelInput))\n\t\t\tif err != nil {\n\t\t\t\tcr <- &result{b: nil, err: err}", New: "\t\t\tnb, err = readUntilF(ctx, []byte(e.ChannelInput))\n\t\t\tif err != nil {\n\t\t\t\tcr <- &result{b: nil, err: fmt.Errorf(\"event %d: %v\", i, err)}"}}},
 			{ID: "C05-auth-timer-removed", Desc: "telnet authentication waits for the worker without a timer", Rule: "C05/deadline-source",
 				Edits: []Edit{{File: "channel/auth.go", Old: "\tt := time.NewTimer(c.TimeoutOps)\n\n\tselect {\n\tcase r := <-cr:\n\t\treturn r.b, r.err\n\tcase <-t.C:\n\t\tc.l.Critical(\"channel timeout during in channel telnet authentication\")\n\n\t\treturn nil, fmt.Errorf(\n\t\t\t\"%w: channel timeout during in channel telnet authentication\",\n\t\t\tutil.ErrTimeoutError,\n\t\t)\n\t}", New: "\tr := <-cr\n\n\treturn r.b, r.err"}}},
 		},
@@ -168,6 +170,7 @@ func runC05(c *Ctx, r *Report) {
 	r.Rule("C05/gettimeout-table", "GetTimeout: -1 -> connection-wide, 0 -> MaxTimeout, else -> the argument", 3)
 	r.Rule("C05/deadline-source", "each blocking operation derives its context/timer from the specified timeout and passes that context to every context-taking call below it", 14)
 	r.Rule("C05/timeout-class", "deadline branches return ErrTimeoutError; a failed implicit privilege change returns ErrPrivilegeError", 10)
+	r.Rule("C05/deadline-chain", "context-bounded readers and workers hand errors on unwrapped or wrapped with %w, so the operation's errors.Is(err, DeadlineExceeded) sees an expired deadline", 1)
 	r.Rule("C05/no-read-after-return", "spawner exits only after an unconditional receive of the worker's result; the worker performs no device I/O after sending", 4)
 	r.Rule("C05/closed-result-nil", "a value received from a result channel that its worker may close without sending is nil-checked before use", 1)
 
@@ -175,6 +178,7 @@ func runC05(c *Ctx, r *Report) {
 	checkGetTimeoutTable(c, r)
 	checkDeadlineSources(c, r)
 	checkTimeoutClasses(c, r)
+	checkDeadlineChain(c, r)
 	checkNoReadAfterReturn(c, r)
 	checkClosedResultNil(c, r)
 }
